@@ -358,6 +358,12 @@ def src_carriers(tier, seed):
             argv += ["--num-threads", "1", d + "p1.lua", d + "p2.lua"] if c["loc"] == "cwd" else ["--num-threads", "1", "first.lua", d + "p1.lua", d + "p2.lua"]
             sig = "malformed;loc=%s" % c["loc"]
         scenarios.append({"id": "ca%d" % n, "tree": tree, "argv": argv, "meta": {"kind": "carrier", "c": c, "sig": sig}})
+        if c["kind"] == "malformed" and c["loc"] == "subdir" and c["carrier"] != "config_path":
+            # the same scenario under a forced schedule: the first file's result reaches the output thread before
+            # the walker reports the malformed configuration file (the order that makes the race visible)
+            scenarios.append({"id": "ca%d:sched" % n, "tree": json.loads(json.dumps(tree)), "argv": argv,
+                              "sched": ["worker[first.lua]:start", "out:recv", "main:EXIT_CODE.store"],
+                              "meta": {"kind": "carrier", "c": c, "sig": sig}})
     keys = list(reqs)
     exp = _expected_formats([("r%d" % i, reqs[k][0].encode(), reqs[k][1]) for i, k in enumerate(keys)])
     by_key = {k: exp.get("r%d" % i) for i, k in enumerate(keys)}
